@@ -247,6 +247,17 @@ func topologyShape(c plugin.Conf) []string {
 			}
 		}
 	}
+	for i, p := range c.Pools {
+		if len(p.Ranges) == 0 {
+			pos := "last"
+			for j, q := range c.Pools {
+				if j != i && len(q.Ranges) > 0 && q.Gateway > p.Gateway {
+					pos = "before-a-pool-with-addresses"
+				}
+			}
+			out = append(out, "topology:pool-without-addresses:"+pos)
+		}
+	}
 	for _, n := range c.Nodes {
 		if !HasSubnet(c.Pools, n.IP) {
 			out = append(out, "topology:node-in-no-subnet")
